@@ -304,6 +304,144 @@ theorem C11_set_legacy_escapes_witness :
       parseSeqFrom .exclude p 0 xs = .ok [1] :=
   ⟨fun n => if n = 0 then none else some n, [1, 0], rfl, rfl⟩
 
+/-! ### nested containers -/
+
+/-- **every level of nesting**: for a sequence type inside any declared type tree, under one `Options`
+object, `exclude` at that level is the strict parse (at that level; inner levels keep their policies) of
+the input without the elements the *inner* converter rejects. -/
+theorem C11_nested_seq_exclude (W : World α) (o : Opts) (k : SeqKind) (t : Ty α) (v v' : α) (xs : List α)
+    (ho : o.items = .exclude) (h : W.asSeq k v = some xs)
+    (h' : W.asSeq k v' = some (removeOffenders (parseTy W o t) xs)) :
+    parseTy W o (.seq k t) v = (parseSeqRule W k .throw (parseTy W o t) v').toOption := by
+  simp only [parseTy, ho]
+  rw [C11_seq_rule_exclude W k (parseTy W o t) v v' xs h h']
+
+theorem parseSeqFrom_mono (pol : Policy) (p p' : Parser α) (i : Nat) (xs rs : List α)
+    (hp : ∀ x ∈ xs, ∀ y, p' x = some y → p x = some y)
+    (h : parseSeqFrom .throw p' i xs = .ok rs) : parseSeqFrom pol p i xs = .ok rs := by
+  induction xs generalizing i rs with
+  | nil => simpa [parseSeqFrom] using h
+  | cons x xs ih =>
+    cases hx : p' x with
+    | none => simp [parseSeqFrom, hx] at h
+    | some y =>
+      have hpx := hp x (by simp) y hx
+      simp only [parseSeqFrom, hx] at h
+      cases hr : parseSeqFrom .throw p' (i + 1) xs with
+      | error e => simp [hr, map_error] at h
+      | ok r =>
+        simp [hr, map_ok] at h
+        subst h
+        have := ih (i + 1) r (fun z hz => hp z (by simp [hz])) hr
+        simp [parseSeqFrom, hpx, this, map_ok]
+
+theorem parseMap_mono (pk pv : Policy) (kp kp' : Parser α) (vp vp' : Option (Parser α)) (kvs rs : List (α × α))
+    (hk : ∀ kv ∈ kvs, ∀ y, kp' kv.1 = some y → kp kv.1 = some y)
+    (hv : ∀ q', vp' = some q' → ∃ q, vp = some q ∧ ∀ kv ∈ kvs, ∀ y, q' kv.2 = some y → q kv.2 = some y)
+    (hn : vp' = none → vp = none)
+    (h : parseMap .throw .throw kp' vp' kvs = .ok rs) : parseMap pk pv kp vp kvs = .ok rs := by
+  induction kvs generalizing rs with
+  | nil => simpa [parseMap] using h
+  | cons kv rest ih =>
+    obtain ⟨k, v⟩ := kv
+    have ih' := fun rs h => ih rs (fun kv hkv => hk kv (by simp [hkv]))
+      (fun q' hq' => by
+        obtain ⟨q, hq, hqq⟩ := hv q' hq'
+        exact ⟨q, hq, fun kv hkv => hqq kv (by simp [hkv])⟩) h
+    cases hkk : kp' k with
+    | none => simp [parseMap, hkk] at h
+    | some k' =>
+      have hk1 := hk (k, v) (by simp) k' hkk
+      cases vp' with
+      | none =>
+        have hvn := hn rfl
+        subst hvn
+        simp only [parseMap, hkk] at h
+        cases hr : parseMap .throw .throw kp' none rest with
+        | error e => rw [hr] at h; simp [map_error] at h
+        | ok r =>
+          rw [hr] at h
+          simp [map_ok] at h
+          subst h
+          simp [parseMap, hk1, ih' r hr, map_ok]
+      | some q' =>
+        obtain ⟨q, hq, hqq⟩ := hv q' rfl
+        subst hq
+        cases hvv : q' v with
+        | none => simp [parseMap, hkk, hvv] at h
+        | some v' =>
+          have hv1 := hqq (k, v) (by simp) v' hvv
+          simp only [parseMap, hkk, hvv] at h
+          cases hr : parseMap .throw .throw kp' (some q') rest with
+          | error e => rw [hr] at h; simp [map_error] at h
+          | ok r =>
+            rw [hr] at h
+            simp [map_ok] at h
+            subst h
+            simp [parseMap, hk1, hv1, ih' r hr, map_ok]
+
+/-- **input without offenders at any depth**: if a value converts under the all-`throw` options, then
+under *every* combination of the three policies it converts to the same result — the policies touch
+nothing when nothing is offending, however deeply the containers are nested.  Structural induction on
+the declared type. -/
+theorem C11_nested_clean_input (W : World α) (o : Opts) (T : Ty α) :
+    ∀ v r, parseTy W Opts.strict T v = some r → parseTy W o T v = some r := by
+  induction T with
+  | leaf p => intro v r h; exact h
+  | seq k t ih =>
+    intro v r h
+    simp only [parseTy, parseSeqRule] at h ⊢
+    cases hs : W.asSeq k v with
+    | none => rw [hs] at h; simp [Except.toOption] at h
+    | some xs =>
+      rw [hs] at h
+      simp only at h ⊢
+      cases hp : parseSeq Opts.strict.items (parseTy W Opts.strict t) xs with
+      | error e => rw [hp] at h; simp [Except.map, Except.toOption] at h
+      | ok rs =>
+        have := parseSeqFrom_mono o.items (parseTy W o t) (parseTy W Opts.strict t) 0 xs rs
+          (fun x _ y hy => ih x y hy) hp
+        rw [hp] at h
+        simp only [parseSeq]
+        rw [this]
+        exact h
+  | map tk tv ihk ihv =>
+    intro v r h
+    simp only [parseTy, parseMapRule] at h ⊢
+    cases hs : W.asMap v with
+    | none => rw [hs] at h; simp [Except.toOption] at h
+    | some kvs =>
+      rw [hs] at h
+      simp only at h ⊢
+      cases hp : parseMap Opts.strict.keys Opts.strict.values (parseTy W Opts.strict tk)
+          (some (parseTy W Opts.strict tv)) kvs with
+      | error e => rw [hp] at h; simp [Except.map, Except.toOption] at h
+      | ok rs =>
+        have := parseMap_mono o.keys o.values (parseTy W o tk) (parseTy W Opts.strict tk)
+          (some (parseTy W o tv)) (some (parseTy W Opts.strict tv)) kvs rs
+          (fun kv _ y hy => ihk kv.1 y hy)
+          (fun q' hq' => ⟨parseTy W o tv, rfl, by cases hq'; exact fun kv _ y hy => ihv kv.2 y hy⟩)
+          (fun hn => by cases hn) hp
+        rw [hp] at h
+        rw [this]
+        exact h
+  | mapK tk ihk =>
+    intro v r h
+    simp only [parseTy, parseMapRule] at h ⊢
+    cases hs : W.asMap v with
+    | none => rw [hs] at h; simp [Except.toOption] at h
+    | some kvs =>
+      rw [hs] at h
+      simp only at h ⊢
+      cases hp : parseMap Opts.strict.keys Opts.strict.values (parseTy W Opts.strict tk) none kvs with
+      | error e => rw [hp] at h; simp [Except.map, Except.toOption] at h
+      | ok rs =>
+        have := parseMap_mono o.keys o.values (parseTy W o tk) (parseTy W Opts.strict tk) none none kvs rs
+          (fun kv _ y hy => ihk kv.1 y hy) (fun q' hq' => by cases hq') (fun _ => rfl) hp
+        rw [hp] at h
+        rw [this]
+        exact h
+
 /-! ### `*args: T` -/
 
 /-- the `*args` loop of a decorated function is the sequence loop (so every sequence theorem holds
